@@ -10,4 +10,5 @@ HOOK_COMMITS = [
     "103a173",  # verif hook H8: expose the named default search operators behind cfg(reinterpretcat_vrp_verif)
     "14b7049",  # verif hook H8b: expose the default diversification operators behind cfg(reinterpretcat_vrp_verif)
     "92aa194",  # verif hook H8b: correct return type of the diversification operators hook
+    "5e4ba64",  # verif hook H9: expose the multi-objective composition of the pragmatic goal reader
 ]
